@@ -215,6 +215,9 @@ func requiresV050(spec *Spec) bool {
 	edits = append(edits, &spec.ContainerEdits)
 	for _, e := range edits {
 		for _, dn := range e.DeviceNodes {
+			if dn == nil {
+				continue
+			}
 			// The HostPath field was added in v0.5.0
 			if dn.HostPath != "" {
 				return true
@@ -236,6 +239,9 @@ func requiresV040(spec *Spec) bool {
 	edits = append(edits, &spec.ContainerEdits)
 	for _, e := range edits {
 		for _, m := range e.Mounts {
+			if m == nil {
+				continue
+			}
 			// The Type field was added in v0.4.0
 			if m.Type != "" {
 				return true
